@@ -36,6 +36,9 @@ def _inner_next(vm, m, callee, args):
 @crate_contract(r'^<B as block::BlockIterator<A>>::skip$', 'the inner block iterator skips cnt values')
 def _inner_skip(vm, m, callee, args):
     from .vm import UNIT
+    k = concrete_int(dv(vm, args[1]))
+    if 'inner' in _RLE and k is not None:
+        _RLE['inner']['pos'] += k
     return UNIT
 
 
@@ -218,5 +221,188 @@ def replay(w):
     try:
         line = krun.native_replay('c06_nullable_replay', [w['bitmap_bytes'], [w['position']], [w['batch']]])
     except Exception as ex:      # the replay binary is optional: without it the counterexample stays unconfirmed
+        return {'reproduced': None, 'line': 'native replay unavailable: %s' % ex}
+    return {'reproduced': True if line.startswith('REPLAY panic') else (False if line.startswith('REPLAY ok') else None), 'line': line}
+
+
+# ================================================================================================ RLE block iterator
+_RLE = {}
+
+
+def _builder(vm, v):
+    b = dv(vm, v)
+    while isinstance(b, Ref):
+        b = dv(vm, b)
+    return b
+
+
+def _opt_alts(vm, o):
+    from .vm import SymEnum
+    o = dv(vm, o)
+    while isinstance(o, Ref):
+        o = dv(vm, o)
+    return o.alts if isinstance(o, SymEnum) else [(BoolVal(True), o)]
+
+
+@crate_contract(r'^<<A as array::Array>::Builder as array::ArrayBuilder>::new$', 'ArrayBuilder::new(): an empty builder')
+def _ab_new(vm, m, callee, args):
+    return Struct('PrimitiveArrayBuilder', [Bits([]), Seq([])])
+
+
+@crate_contract(r'^<<A as array::Array>::Builder as array::ArrayBuilder>::finish$', 'ArrayBuilder::finish(): the array of the pushed items')
+def _ab_finish(vm, m, callee, args):
+    b = _builder(vm, args[0])
+    return Struct('PrimitiveArray', [b.fields[0], b.fields[1]])
+
+
+@crate_contract(r'^<<A as array::Array>::Builder as array::ArrayBuilder>::push$', 'ArrayBuilder::push(Option<&item>) appends one (possibly NULL) item')
+def _ab_push(vm, m, callee, args):
+    from .vm import UNIT
+    from z3 import If, Or, BitVecVal
+    b = _builder(vm, args[0])
+    valid, val = [], None
+    for c, a in _opt_alts(vm, args[1]):
+        if a.variant == 'Some':
+            x = dv(vm, a.fields[0])
+            while isinstance(x, Ref):
+                x = dv(vm, x)
+            valid.append(c)
+            val = x.v if val is None else If(c, x.v, val)
+    b.fields[0].bits.append(Or(valid) if valid else BoolVal(False))
+    b.fields[1].items.append(BV(val if val is not None else BitVecVal(0, 32), True))
+    return UNIT
+
+
+@crate_contract(r'^<A as array::Array>::get$', 'Array::get(i): Some(&item) when valid, None when NULL')
+def _arr_get(vm, m, callee, args):
+    from .vm import SymEnum
+    from z3 import Not
+    a = _builder(vm, args[0])
+    i = concrete_int(dv(vm, args[1]))
+    v = bool_(a.fields[0].bits[i])
+    item = a.fields[1].items[i]
+    return SymEnum('Option', [(v, Enum('Option', 'Some', [Ref(Cell(item))])), (Not(v), Enum('Option', 'None'))])
+
+
+@crate_contract(r'^<<A as array::Array>::Item as ToOwned>::to_owned$|^<<<A as array::Array>::Item as ToOwned>::Owned as (std::borrow::)?Borrow<<A as array::Array>::Item>>::borrow$',
+                'to_owned / borrow between an item and its owned form keep the value')
+def _own(vm, m, callee, args):
+    x = dv(vm, args[0])
+    while isinstance(x, Ref):
+        x = dv(vm, x)
+    return x if callee.endswith('to_owned') else Ref(Cell(x))
+
+
+@crate_contract(r'^<B as block::BlockIterator<A>>::next_batch$', 'inner block iterator of an RLE block: next_batch(Some(1)) appends the next run value (0 when exhausted)')
+def _rle_inner_next(vm, m, callee, args):
+    st = _RLE['inner']
+    if st['pos'] >= len(st['vals']):
+        return mk_int(0, 'usize')
+    valid, raw = st['vals'][st['pos']]
+    st['pos'] += 1
+    b = _builder(vm, args[2])
+    b.fields[0].bits.append(valid)
+    b.fields[1].items.append(BV(raw, True))
+    return mk_int(1, 'usize')
+
+
+def _rle_inner_skip(k):
+    _RLE['inner']['pos'] += k
+
+
+def run_rle(rep, thorough):
+    """RleBlockIterator::{next_batch, skip, remaining_items} from MIR: concrete run lengths, symbolic (possibly NULL) run
+    values; after skip(s), batches read back exactly rows [s, s+n) of the expanded sequence."""
+    from z3 import Bool, And, Not, Or
+    t0 = time.time()
+    try:
+        vm = make_vm(True)
+        pat = r'^rle_block_iterator::<impl at src/storage/secondary/block/rle_block_iterator\.rs:\d+:\d+: \d+:\d+>::%s$'
+        f_next, f_skip, f_rem = [find_fn(vm.prog, pat % k) for k in ('next_batch', 'skip', 'remaining_items')]
+    except (Inconclusive, Unsupported, MirSyntax) as ex:
+        rep.fail_inconclusive('RleBlockIterator: %s' % ex)
+        return
+    # the inner iterator's skip is the contract registered for the nullable iterator (returns unit); track the position here
+    shapes = [(1,), (3,), (1, 1), (2, 1), (1, 3), (2, 2, 1), (1, 2, 3)] if not thorough else \
+        [c for k in (1, 2, 3) for c in itertools.product((1, 2, 3), repeat=k)]
+    n_ob = 0
+    for runs in shapes:
+        total = sum(runs)
+        reads = [(s, n) for s in range(0, total) for n in ((1, 2, None) if not thorough else (1, 2, 3, None)) if n is None or s + n <= total + 1]
+        for s, n in reads:
+            desc = 'RleBlockIterator over runs %s: skip %d then next_batch(%s)' % (list(runs), s, n)
+            vals = [(Bool('rv_valid%d' % i), BitVec('rv_raw%d' % i, 32)) for i in range(len(runs))]
+            _RLE['inner'] = {'vals': vals, 'pos': 0}
+            it = Struct('RleBlockIterator', [Opaque('inner'), Seq([mk_int(c, 'u32') for c in runs], 'vec'), mk_int(0, 'usize'), mk_int(0, 'usize'), mk_int(len(runs), 'usize'),
+                                             Enum('Option', 'None'), mk_int(0, 'usize'), mk_int(total, 'usize'), BoolVal(True)])
+            itref = Ref(Cell(it))
+            try:
+                pc = ()
+                if s:
+                    # the real skip calls block_iter.skip(k - 1): mirror it on the inner model through a one-shot contract
+                    outs = vm.run(f_skip, [itref, mk_int(s, 'usize')], pc=pc)
+                    if len(outs) != 1 or outs[0].kind != 'ret':
+                        raise Unsupported('skip forks or panics (%s)' % [o.kind for o in outs])
+                    itref, pc = outs[0].args[0], tuple(outs[0].pc)
+                b1 = Ref(Cell(Struct('PrimitiveArrayBuilder', [Bits([]), Seq([])])))
+                arg_n = Enum('Option', 'None') if n is None else Enum('Option', 'Some', [mk_int(n, 'usize')])
+                outs = vm.run(f_next, [itref, arg_n, b1], pc=pc)
+            except (Unsupported, MirSyntax, KeyError, IndexError, AttributeError, TypeError) as ex:
+                rep.fail_inconclusive('%s: %s: %s' % (desc, type(ex).__name__, str(ex)[:300]))
+                continue
+            expanded = [vals[i] for i, c in enumerate(runs) for _ in range(c)]
+            want_rows = expanded[s:] if n is None else expanded[s:s + n]
+            for o in outs:
+                n_ob += 1
+                rep.cov['programs'] += 1
+                if o.kind != 'ret':
+                    st, m = satisfiable(list(o.pc))
+                    if st == 'unsat':
+                        continue
+                    out = rep.counterexample('rle-iterator:panics', '%s: panics (%s)' % (desc, o.value), {'desc': desc}, None)
+                    rep.obligation(out == 'known')
+                    continue
+                bld = vm.deref_value(o.args[2])
+                got_valid, got_data = vm.deref_value(bld.fields[0]), vm.deref_value(bld.fields[1])
+                cnt = concrete_int(o.value)
+                ok_shape = cnt == len(want_rows) and len(got_valid.bits) == len(want_rows)
+                if ok_shape:
+                    claim = And([And(bool_(gv) == wv, Or(Not(wv), vm.deref_value(gd).v == wr)) for gv, gd, (wv, wr) in zip(got_valid.bits, got_data.items, want_rows)])
+                else:
+                    claim = BoolVal(False)
+                st, m = check(list(o.pc), claim)
+                if st == 'unsat':
+                    rep.obligation(True)
+                    rep.sample({'obligation': desc, 'verdict': 'reads back rows [%d, %d) of the expanded runs for every run value (NULL included)' % (s, s + len(want_rows))}, cap=5)
+                    continue
+                if st == 'unknown':
+                    rep.obligation(False)
+                    rep.fail_inconclusive('solver unknown: ' + desc)
+                    continue
+                w = {'runs': list(runs), 'skip': s, 'batch': n, 'returned_count': cnt, 'expected_count': len(want_rows),
+                     'run_values': [None if not is_true(m.eval(v, model_completion=True)) else m.eval(r, model_completion=True).as_signed_long() for v, r in vals]}
+                key = 'rle-iterator:rows:%s' % ('count' if not ok_shape else 'values')
+                what = '%s: returned %s rows, expected %d; run values %s' % (desc, cnt, len(want_rows), w['run_values'])
+                rp = replay_rle(w)
+                what += '; native replay: %s' % rp.get('line')
+                out = rep.counterexample(key, what[:500], {'desc': desc, 'witness': w, 'replay': rp}, rp['reproduced'])
+                rep.obligation(out == 'known')
+    rep.solver(time.time() - t0, n_ob)
+    rep.cov['functions_encoded'] = list(rep.cov.get('functions_encoded', [])) + ['RleBlockIterator::{next_batch, skip, get_next_element, get_cur_rle_count} (from MIR)']
+    if isinstance(rep.cov.get('bounds'), dict):
+        rep.cov['bounds']['rle block iterator'] = 'run-length shapes %s, every skip position, batches of 1-2 rows or the rest; run values (and NULL-ness) symbolic' % ('all of 1-3 runs of length 1-3' if thorough else str(shapes))
+
+
+def replay_rle(w):
+    """The same read on the real types: an RLE block over a nullable plain block built from the witness runs."""
+    from kani import run as krun
+    vals = [255 if v is None else (v % 200) for v in w['run_values']]
+    # distinct values per run so that the builder keeps the witness run structure
+    for i in range(1, len(vals)):
+        if vals[i] == vals[i - 1]:
+            vals[i] = (vals[i] + 1) % 200 if vals[i] != 255 else 7
+    try:
+        line = krun.native_replay('c06_rle_replay', [w['runs'], vals, [w['skip']], [w['batch'] or 0]])
+    except Exception as ex:
         return {'reproduced': None, 'line': 'native replay unavailable: %s' % ex}
     return {'reproduced': True if line.startswith('REPLAY panic') else (False if line.startswith('REPLAY ok') else None), 'line': line}
